@@ -225,7 +225,9 @@ class WritableVersion(dns.zone.WritableVersion):
         if self.zone.relativize:
             return name == dns.name.empty
         else:
-            return name == self.zone.origin
+            # We use the version's origin, as the zone's origin is not yet known
+            # while we are loading a zone whose origin comes from its text.
+            return name == self.origin
 
     def _maybe_cow_with_name(
         self, name: dns.name.Name
